@@ -646,7 +646,7 @@ static void c04real_setup(void)
     VM.prop = "C04";
     REAL_N = (int)vs_param("n", 3);
     P_STREAMS = 1;
-    snprintf(REAL_PATH, sizeof REAL_PATH, "/verif/build/c04real-%d.raw", (int)getpid());
+    snprintf(REAL_PATH, sizeof REAL_PATH, "%s/build/c04real-%d.raw", getenv("VERIF_ROOT") ? getenv("VERIF_ROOT") : "/verif", (int)getpid());
     size_t fb = vmock_expected_frame_bytes(8, 8, SampleType_u8);
     rt_resize_rings((size_t)vs_param("ringf", 2) * fb + (size_t)vs_param("ringx", 8), 2 * fb + 8, 0x42);
     memset(&PROPS, 0, sizeof PROPS);
@@ -669,7 +669,7 @@ static void c04real_trigger_thread(void* a)
 static void c04real_run(void)
 {
     // configured here, in the child: the raw writer locks its file, so every execution needs a path of its own
-    snprintf(REAL_PATH, sizeof REAL_PATH, "/verif/build/c04real-%d.raw", (int)getpid());
+    snprintf(REAL_PATH, sizeof REAL_PATH, "%s/build/c04real-%d.raw", getenv("VERIF_ROOT") ? getenv("VERIF_ROOT") : "/verif", (int)getpid());
     unlink(REAL_PATH);
     storage_properties_init(&PROPS.video[0].storage.settings, 0, REAL_PATH, strlen(REAL_PATH) + 1, 0, 0, (struct PixelScale){ 1, 1 }, 0);
     OKQ(acquire_configure(RT, &PROPS));
